@@ -3,14 +3,24 @@ Real PlanarMWPMDecoder / ToricMWPMDecoder / NaiveDecoder on every error with X-p
 "recovery xor error is a product of stabilizers" is decided by the extracted sound elimination in_span
 (Core/Span.v: a positive answer carries checked coefficients) on the implementation's stabilizer matrix, and
 independently in Python; the naive decoder's answer is compared with the model and its weight with an exhaustive
-search."""
+search.
+Beyond the exhaustive small sweeps: (a) structured worst-case errors at larger sizes — every straight / L-shaped (all
+shapes where cheap) chain of at most t steps at every position of every planar and toric lattice up to 11x11, square and
+rectangular, both Pauli types; (b) the decoder's matching GRAPH (recorded at qecsim.graphtools.mwpm) against the model
+graph of Decoders/MwpmGraph.v (complete on the defects, taxi-cab / periodic taxi-cab weights, boundary edges) on all
+those sizes; (c) operation HISTORIES: one decoder object reused across sizes and codes in several orders, the caller
+scribbling on every array it received or passed, next to fresh objects — the property must hold in every history."""
 import itertools
 import json
+import os
+import random
+import subprocess
 
 import numpy as np
 
+from harness import c14_extra as cx
 from harness import decoder_zoo as zoo
-from harness.common import bitstr, rowsstr, coq_bits, coq_list, Ctx
+from harness.common import bitstr, rowsstr, coq_bits, coq_list, Ctx, COQ, BUILD
 
 KNOWN_NAIVE = 'naive-mixed-xz-beyond-total-weight'
 
@@ -52,6 +62,47 @@ def gf2_in_span(rows, v):
     return True
 
 
+class PySpan:
+    """gf2_in_span with the elimination of the rows done once"""
+    def __init__(self, rows):
+        self.piv = {}
+        for r in rows:
+            x = int(''.join(map(str, r)), 2) if len(r) else 0
+            while x:
+                h = x.bit_length()
+                if h in self.piv:
+                    x ^= self.piv[h]
+                else:
+                    self.piv[h] = x
+                    break
+
+    def contains(self, v):
+        return self.contains_int(int(''.join(map(str, v)), 2) if len(v) else 0)
+
+    def contains_int(self, x):
+        piv = self.piv
+        while x:
+            h = x.bit_length()
+            if h not in piv:
+                return False
+            x ^= piv[h]
+        return True
+
+
+class Letters:
+    """the Pauli string of an error, spelled out only when it is reported"""
+    def __init__(self, e):
+        self.e = e
+
+    def __str__(self):
+        return zoo.bsf_to_letters(self.e)
+
+
+class Rep(dict):
+    def plain(self):
+        return {k: (str(v) if isinstance(v, Letters) else v) for k, v in self.items()}
+
+
 def sym_commutes(a, M):
     """symplectic products of vector a with the rows of M, written out (not paulitools.bsp)"""
     n = len(a) // 2
@@ -86,19 +137,139 @@ def min_weight_table(stabs, n):
     return best
 
 
+GRAPH_V = os.path.join(COQ, 'theories', 'Decoders', 'MwpmGraph.v')
+
+
+def ensure_graph_model(ctx):
+    """Decoders/MwpmGraph.v (the model of the matching graph) compiled against the current development — recompiled,
+    under the build lock, when a library it imports is newer — its theorems registered as obligations, and the engine
+    c14g extracted from it."""
+    import fcntl
+    import re
+    vo = GRAPH_V[:-2] + '.vo'
+    deps = [os.path.join(COQ, 'theories', d) for d in ('Decoders/PlanarMwpm.vo', 'Decoders/ToricMwpm.vo', 'Lattice/PlanarAll.vo',
+                                                        'Lattice/ToricAll.vo', 'Generated/LatticeArith.vo')]
+    log = ''
+    lock = open(os.path.join(BUILD, '.make.lock'), 'w')
+    fcntl.flock(lock, fcntl.LOCK_EX)
+    try:
+        newest = max([os.path.getmtime(GRAPH_V)] + [os.path.getmtime(d) for d in deps if os.path.exists(d)])
+        if not os.path.exists(vo) or os.path.getmtime(vo) < newest:
+            pr = subprocess.run(['timeout', '900', 'coqc', '-Q', 'theories', 'QV', 'theories/Decoders/MwpmGraph.v'], cwd=COQ,
+                                capture_output=True, text=True)
+            log = pr.stdout + pr.stderr
+        ok = os.path.exists(vo) and os.path.getmtime(vo) >= newest
+        exe = os.path.join(BUILD, 'qmodel_c14g')
+        srcs = [GRAPH_V, os.path.join(COQ, 'extract', 'ExtractC14G.v'), os.path.join(COQ, 'extract', 'drv_c14g.ml')]
+        if ok and (not os.path.exists(exe) or os.path.getmtime(exe) < max(os.path.getmtime(f) for f in srcs)):
+            pr = subprocess.run(['./build_engines.sh', 'c14g'], cwd=os.path.dirname(BUILD), capture_output=True, text=True)
+            log += pr.stdout + pr.stderr
+    finally:
+        fcntl.flock(lock, fcntl.LOCK_UN)
+        lock.close()
+    text = open(GRAPH_V).read()
+    bad = re.search(r'\b(Admitted|admit|Axiom|Parameter|Conjecture)\b', re.sub(r'\(\*.*?\*\)', '', text, flags=re.S))
+    ctx.obligation('Decoders/MwpmGraph.v compiled against the current development (theorems re-exported in Props/C14.v)', ok and not bad, log)
+    ctx.obligation('model engine c14g built from Decoders/MwpmGraph.v', os.path.exists(os.path.join(BUILD, 'qmodel_c14g')), log)
+    return ok
+
+
+def lattice_n(fam, sz):
+    return 2 * sz[0] * sz[1] if fam == 'toric' else sz[0] * sz[1] + (sz[0] - 1) * (sz[1] - 1)
+
+
+HIST_SIZES = {
+    True: {'planar': [(2, 2), (3, 3), (3, 5), (5, 3), (4, 4), (5, 5), (5, 7), (7, 7), (9, 9)],
+           'toric': [(2, 2), (3, 3), (3, 4), (4, 4), (5, 4), (5, 5), (7, 7), (6, 9), (9, 9)]},
+    False: {'planar': [(2, 2), (2, 3), (3, 3), (3, 5), (5, 3), (4, 4), (4, 5), (5, 5), (5, 7), (7, 5), (6, 6), (7, 7), (7, 9),
+                       (8, 8), (9, 9), (9, 11), (11, 11)],
+            'toric': [(2, 2), (2, 3), (3, 3), (3, 4), (4, 3), (4, 4), (5, 4), (4, 5), (5, 5), (3, 7), (7, 7), (6, 9), (9, 6),
+                      (8, 8), (9, 9), (10, 11), (11, 11)]}}
+NAIVE_HIST = [('five', ()), ('planar', (2, 2)), ('steane', ()), ('toric', (2, 2)), ('rotatedplanar', (3, 3)), ('color666', (3,)),
+              ('planar', (2, 3)), ('rotatedtoric', (2, 4))]
+
+
+def build_histories(hseed, quick):
+    """the operation histories, a deterministic function of (hseed, tier): [(decoder spec, order name, [(code, error)])]"""
+    hr = random.Random(hseed)
+    cap = 240 if quick else 600
+    out = []
+    for fam, dname in (('planar', 'PlanarMWPMDecoder'), ('toric', 'ToricMWPMDecoder')):
+        per_code = []
+        for sz in sorted(HIST_SIZES[quick][fam], key=lambda z: (z[0] * z[1], z)):
+            n = lattice_n(fam, sz)
+            t = (min(sz) - 1) // 2
+            pool = cx.chain_errors(fam, sz, t, 1)
+            if len(pool) > cap // 3:
+                pool = hr.sample(pool, cap // 3)
+            pool += cx.multi_chain_errors(hr, fam, sz, t, cap // 3)
+            for _ in range(cap - len(pool)):
+                e = np.zeros(2 * n, dtype=int)
+                for off in hr.choice(((0,), (n,), (0, n))):
+                    for q in hr.sample(range(n), hr.choice((t, t, hr.randint(0, t)))):
+                        e[off + q] = 1
+                pool.append(bitstr(e))
+            hr.shuffle(pool)
+            per_code.append(((fam, tuple(sz)), pool))
+        for name, items in cx.orders(hr, per_code):
+            out.append(((dname, ()), name, items))
+    per_code = []
+    for cs in NAIVE_HIST:
+        n = zoo.make_code(cs).n_k_d[0]
+        pool = ['0' * (2 * n)]
+        for q in range(n):
+            for x, z in ((1, 0), (0, 1), (1, 1)):
+                e = np.zeros(2 * n, dtype=int)
+                e[q], e[n + q] = x, z
+                pool.append(bitstr(e))
+        per_code.append((cs, hr.sample(pool, min(len(pool), 12 if quick else 31))))
+    for name, items in cx.orders(hr, per_code):
+        out.append((('NaiveDecoder', (10,)), name, items))
+    return out
+
+
+def chain_sizes(ctx):
+    """(size, max_turns) for the chain sweeps: every size up to 7x7 with every walk shape; beyond, up to 11x11: quick =
+    9x9, 11x11, 7x11, 11x7 and a seed-dependent choice of rectangular sizes, straight and L-shaped; thorough = all"""
+    small = [(r, c) for r in range(3, 8) for c in range(3, 8)]
+    big = [(r, c) for r in range(3, 12) for c in range(3, 12) if max(r, c) > 7]
+    if ctx.quick:
+        fixed = [(9, 9), (11, 11), (7, 11), (11, 7)]
+        rest = [z for z in big if z not in fixed]
+        return {'planar': [(z, 99) for z in small] + [(z, 1) for z in fixed + ctx.rng.sample(rest, 4)],
+                'toric': [(z, 99) for z in small] + [(z, 1) for z in fixed[:2] + ctx.rng.sample(rest, 3)]}
+    return {'planar': [(z, 99) for z in small + big], 'toric': [(z, 99 if min(z) <= 10 else 2) for z in small + big]}
+
+
 def run(ctx):
     import logging
     logging.getLogger('qecsim').setLevel(logging.CRITICAL)
     from qecsim import paulitools as pt
     rng = ctx.rng
     quick = ctx.quick
+    hseed = rng.getrandbits(48)         # first draw: replay() regenerates the histories from it
+    import time
+    phase = {}
+    tp = [time.time()]
+
+    def mark(name):
+        phase[name] = round(time.time() - tp[0], 1)
+        tp[0] = time.time()
     ctx.rule = ('planar and toric sizes up to 5x5 (thorough: to 7x7): every error whose X-part is any placement of weight '
                 '<= t with empty Z-part, every such Z-part error, every X-part x Z-part combination when there are <= %d of '
-                'them, else %d random combinations (the decoders treat the two lattices independently); naive decoder on '
-                'the basic codes and the lattices with n <= 10: every error with X- and Z-part of weight <= t, every '
-                'syndrome for minimality. nontrivial = the error creates a defect on a boundary row/column (planar) or on '
+                'them, else %d random combinations (the decoders treat the two lattices independently); CHAINS: every '
+                'self-avoiding plaquette-lattice walk of <= t steps from every plaquette (virtual boundary plaquettes '
+                'included), X and Z on it (plus sampled unions of 2-3 separate chains of one type, total weight <= t), every shape on all sizes to 7x7, straight and L-shaped (thorough: every shape) on '
+                'sizes to 11x11 incl. rectangular (quick: a seed-dependent subset of the rectangular ones); GRAPH: the graph '
+                'handed to graphtools.mwpm vs the model graph on a sample of all those decodes; HISTORIES: one decoder object '
+                'over 9 (thorough 17) sizes in 6 orders (ascending, descending, interleaved, shuffled, each-twice, ping-pong), '
+                'caller scribbling on returned arrays; naive decoder on the basic codes and the lattices with n <= 10: every '
+                'error with X- and Z-part of weight <= t, every syndrome for minimality, and reused across codes. '
+                'nontrivial = the error creates a defect on a boundary row/column (planar) or on '
                 'the first/last row/column (toric, wrap-around)' % (ctx.pick(700, 1300), ctx.pick(300, 2000)))
     ctx.props_obligations()
+    graph_ok = ensure_graph_model(ctx)
+    mark('proofs')
     if quick:
         planar = [(2, 2), (3, 3), (3, 4), (4, 3), (3, 5), (4, 4), (5, 4), (5, 5)]
         toric = [(2, 2), (3, 3), (3, 4), (4, 4), (5, 4), (5, 5)]
@@ -117,12 +288,12 @@ def run(ctx):
             mat_lines.append('mat %s %s' % (zoo.code_name(cs), rowsstr(code.stabilizers)))
         return codes[cs]
 
-    def add_jobs(cs, ds, errs, kind):
-        es = [bitstr(e) for e in errs]
+    def add_jobs(cs, ds, errs, kind, graph_every=0):
+        es = [e if isinstance(e, str) else bitstr(e) for e in errs]
         for ch in zoo.chunks(es, 200):
             jid = len(jobs)
-            jobs.append({'id': jid, 'code': cs, 'decoder': ds, 'errors': ch,
-                         'contexts': [(('DepolarizingErrorModel', ()), 0.1)] * len(ch)})
+            jobs.append({'id': jid, 'code': cs, 'decoder': ds, 'errors': ch, 'items': [(cs, e) for e in ch],
+                         'graph_every': graph_every})
             meta[jid] = kind
 
     # ---- 1. MWPM decoders ----
@@ -149,13 +320,25 @@ def run(ctx):
                             e[off + q] = 1
                     errs.append(e)
                 mode = 'all-parts+sampled-combinations'
-            add_jobs(cs, (dname, ()), errs, 'mwpm/' + mode)
+            add_jobs(cs, (dname, ()), errs, 'mwpm/' + mode, graph_every=ctx.pick(9, 5))
+    # ---- 1b. chains: the extremal inputs of a matching decoder, on sizes to 11x11 ----
+    csz = chain_sizes(ctx)
+    for fam, dname in (('planar', 'PlanarMWPMDecoder'), ('toric', 'ToricMWPMDecoder')):
+        for sz, turns in csz[fam]:
+            cs = (fam, tuple(sz))
+            code, n, cname = reg(cs)
+            if n != lattice_n(fam, sz) or code.n_k_d[2] != min(sz):
+                ctx.violation('distance', 'n_k_d reports %r, expected n=%d d=min(rows, cols)' % (code.n_k_d, lattice_n(fam, sz)),
+                              {'code': cname})
+            t = (min(sz) - 1) // 2
+            add_jobs(cs, (dname, ()), cx.chain_errors(fam, sz, t, turns), 'mwpm/chains-%s' % ('any-shape' if turns > 2 else 'straight+L'),
+                     graph_every=3 if n <= 85 else 7)
+            add_jobs(cs, (dname, ()), cx.multi_chain_errors(rng, fam, sz, t, ctx.pick(120, 600)), 'mwpm/multi-chain', graph_every=2)
     # ---- 2. naive decoder, n <= 10 ----
     naive_codes = [('five', ()), ('steane', ()), ('planar', (2, 2)), ('planar', (2, 3)), ('toric', (2, 2)),
                    ('rotatedplanar', (3, 3)), ('color666', (3,)), ('rotatedtoric', (2, 2)), ('rotatedtoric', (2, 4))]
     if not quick:
         naive_codes += [('planar', (3, 2)), ('rotatedtoric', (4, 2))]
-    naive_req = []
     for cs in naive_codes:
         code, n, cname = reg(cs)
         d = code.n_k_d[2]
@@ -171,12 +354,35 @@ def run(ctx):
                      'naive/sampled-syndromes')
         # the max_qubits guard
         add_jobs(cs, ('NaiveDecoder', (n - 1,)), [np.zeros(2 * n, dtype=int)], 'naive/guard')
+    # ---- 3. histories: one decoder object over many codes and sizes ----
+    histories = build_histories(hseed, quick)
+    hjobs = [{'id': 'h%d' % h, 'decoder': ds, 'items': items, 'graph_every': 11, 'scribble': True}
+             for h, (ds, name, items) in enumerate(histories)]
 
-    results = zoo.run_pool(zoo.run_decode_job, jobs)
+    mark('generate')
+    allres = zoo.run_pool(cx.run_job, hjobs + jobs)
+    mark('decode')
+    hres, results = allres[:len(hjobs)], allres[len(hjobs):]
+    # a history's results regrouped per code (history order kept) so that they are evaluated like the fresh-object jobs
+    for h, ((ds, name, items), res) in enumerate(zip(histories, hres)):
+        if res.get('ctor_error') or len(res['results']) != len(items):
+            ctx.violation('raised', '%s could not run history %s: %s' % (ds[0], name, res.get('ctor_error')), {'decoder': list(ds)})
+            continue
+        groups = {}
+        for pos, ((cs, es), r) in enumerate(zip(items, res['results'])):
+            groups.setdefault(cs, []).append((pos, es, r))
+        for cs, lst in groups.items():
+            reg(cs)
+            jid = len(jobs)
+            jobs.append({'id': jid, 'code': cs, 'decoder': ds, 'errors': [es for _, es, _ in lst],
+                         'hist': (h, name, [pos for pos, _, _ in lst])})
+            results.append({'id': jid, 'results': [r for _, _, r in lst]})
+            meta[jid] = '%s/history/%s' % ('naive' if ds[0] == 'NaiveDecoder' else 'mwpm', name)
 
     # ---- model requests ----
     req = []
     look = {}
+    greq, glook = [], {}
     for job, res in zip(jobs, results):
         code, n, cname = codes[job['code']]
         for k, r in enumerate(res['results']):
@@ -189,7 +395,13 @@ def run(ctx):
                 mq = job['decoder'][1][0]
                 look[(job['id'], k, 'naive')] = len(req)
                 req.append('naive %s %d %s %s' % (cname, n, '_' if mq is None else str(mq), r['syndrome']))
+            if r.get('graphs') is not None and job['code'][0] in ('planar', 'toric') and job['decoder'][0] != 'NaiveDecoder':
+                glook[(job['id'], k)] = len(greq)
+                greq.append('%sgraph %d %d %s' % (job['code'][0][0], job['code'][1][0], job['code'][1][1], r['syndrome']))
     out = zoo.model_parallel(ctx, 'dec', req, prefix=mat_lines)
+    mark('model-span')
+    gout = zoo.model_parallel(ctx, 'c14g', greq) if graph_ok else []
+    mark('model-graph')
 
     # negative answers get a verified certificate: a stabilizer or logical l anticommuting with v (w = l with halves
     # swapped vanishes on every stabilizer, since l commutes with all of them, but not on v)
@@ -210,22 +422,34 @@ def run(ctx):
     ctx.extra['negative_answers_certified'] = sum(1 for x in neg_out if x == '1')
     ctx.extra['negative_answers'] = sum(1 for i in look if i[2] == 'span' and out[look[i]] == '_')
 
+    mark('certificates')
     tables = {}
+    spans = {}
     kern = []
+    gkern = []
+    shrunk = 0
+    ngraph = 0
     for job, res in zip(jobs, results):
         cs, ds = job['code'], job['decoder']
         code, n, cname = codes[cs]
         kind = meta[job['id']]
         S, L = code.stabilizers, code.logicals
+        if cs not in spans:
+            spans[cs] = PySpan(S)
         d = code.n_k_d[2]
         t = (d - 1) // 2
+        hist = job.get('hist')
         for k, r in enumerate(res['results']):
             es = job['errors'][k]
-            e = np.array([int(c) for c in es])
+            e = (np.frombuffer(es.encode(), dtype=np.uint8) - 48).astype(int)
             xw, zw = int(e[:n].sum()), int(e[n:].sum())
             tw = int(np.count_nonzero(e[:n] | e[n:]))
-            rep = {'code': [cs[0], list(cs[1])], 'decoder': [ds[0], list(ds[1])], 'error': zoo.bsf_to_letters(e),
-                   'x_weight': xw, 'z_weight': zw, 't': t, 'outcome': r['outcome'], 'recovery': r.get('recovery')}
+            rep = Rep({'code': [cs[0], list(cs[1])], 'decoder': [ds[0], list(ds[1])], 'error': Letters(e),
+                       'x_weight': xw, 'z_weight': zw, 't': t, 'outcome': r['outcome'], 'recovery': r.get('recovery')})
+            if hist:
+                rep['history'] = {'order': hist[1], 'index': hist[2][k], 'number': hist[0], 'hseed': hseed, 'tier': ctx.tier,
+                                  'note': 'ONE decoder object decoded items 0..index of this history (other codes and sizes '
+                                          'first); the caller overwrote every returned array'}
             if kind == 'naive/guard':
                 ctx.count(None, False, kind)
                 m_ = out[look[(job['id'], k, 'naive')]] if (job['id'], k, 'naive') in look else None
@@ -245,33 +469,49 @@ def run(ctx):
                         nontriv = nontriv or rr in (0, cs[1][0] - 1) or cc in (0, cs[1][1] - 1)
             else:
                 nontriv = tw >= 1
-            ctx.count((cname, ds[0], es), nontriv, '%s/%s' % (kind, cs[0]),
-                      {'code': cname, 'decoder': ds[0], 'error': rep['error'], 'recovery': r.get('recovery'), 't': t}
-                      if (nontriv and xw >= 1 and zw >= 1 and 13 <= n <= 25) else None)
+            ctx.count((cname, ds[0], es, hist[1] if hist else ''), nontriv, '%s/%s' % (kind, cs[0]),
+                      {'code': cname, 'decoder': ds[0], 'error': str(rep['error']), 'recovery': r.get('recovery'), 't': t}
+                      if (nontriv and xw >= 1 and zw >= 1 and 13 <= n <= 25 and len(ctx.samples) < 6) else None)
             ctx.hist['%s xw=%d zw=%d' % (ds[0][:6], xw, zw)] += 1
+            # ---- the matching graph: recorded at graphtools.mwpm vs the model graph ----
+            if (job['id'], k) in glook and gout:
+                ngraph += 1
+                impl_g = '|'.join(r['graphs'])
+                model_g = '|'.join(cx.canon_model_graph(x) for x in gout[glook[(job['id'], k)]].split('|'))
+                same = impl_g == model_g
+                if not same:
+                    ctx.cmp('%s MWPM matching graph (edges and weights, both lattices)' % cs[0],
+                            dict(rep.plain(), graph_request=greq[glook[(job['id'], k)]][:120]), impl_g, model_g)
+                if same and len(gkern) < 16 and 2 <= tw and n <= 113 and impl_g.count('>') >= 3 and (job['id'] + k) % 5 == 0:
+                    gkern.append((cs, r['syndrome'], r['graphs']))
             within = xw <= t and zw <= t
             if r['outcome'] != 'ok' or r.get('recovery') is None or (job['id'], k, 'span') not in look:
-                ctx.violation('raised', '%s on %s: %s' % (ds[0], cname, r['outcome'] if r['outcome'] != 'ok' else 'malformed recovery'), rep)
+                ctx.violation('raised', '%s on %s: %s' % (ds[0], cname, r['outcome'] if r['outcome'] != 'ok' else 'malformed recovery'), rep.plain())
                 continue
-            rec = np.array([int(c) for c in r['recovery']])
+            rec = (np.frombuffer(r['recovery'].encode(), dtype=np.uint8) - 48).astype(int)
             v = rec ^ e
             m_span = out[look[(job['id'], k, 'span')]]
             zero_syn = not sym_commutes(v, S).any()
             indep = zero_syn and not sym_commutes(v, L).any()
-            indep2 = gf2_in_span(S, v)
-            ctx.cmp('in_span vs independent elimination / logical commutation', '%s %s' % (cname, bitstr(v)),
-                    (indep, indep2), (m_span != '_', m_span != '_'))
+            indep2 = spans[cs].contains_int(int(r['recovery'], 2) ^ int(es, 2))
+            if (indep, indep2) != (m_span != '_', m_span != '_'):
+                ctx.cmp('in_span vs independent elimination / logical commutation', '%s %s' % (cname, bitstr(v)),
+                        (indep, indep2), (m_span != '_', m_span != '_'))
             if m_span != '_':
                 # the returned coefficients really combine the stabilizers to recovery xor error
-                c = np.array([int(ch) for ch in m_span]) if m_span != '-' else np.zeros(0, dtype=int)
+                c = (np.frombuffer(m_span.encode(), dtype=np.uint8) - 48).astype(int) if m_span != '-' else np.zeros(0, dtype=int)
                 comb = (c @ S) % 2 if len(c) else np.zeros(2 * n, dtype=int)
                 if not np.array_equal(comb, v):
                     ctx.cmp('in_span coefficients', cname, 'do not combine to v', 'combine to v')
             corrected = m_span != '_'
             if not corrected:
                 cert = neg_out[neg_look[(job['id'], k)]] if (job['id'], k) in neg_look else 'none'
-                ctx.cmp('not_in_span_cert on a negative in_span answer', '%s %s' % (cname, bitstr(v)), cert, '1')
+                if cert != '1':
+                    ctx.cmp('not_in_span_cert on a negative in_span answer', '%s %s' % (cname, bitstr(v)), cert, '1')
                 rep['not_in_span_certificate'] = cert
+                if hist and shrunk < 3 and (ds[0] != 'NaiveDecoder' or tw <= t) and within:
+                    shrunk += 1
+                    rep['prior'] = shrink_history(ds, histories[hist[0]][2], hist[2][k])
             if ds[0] == 'NaiveDecoder':
                 # model correspondence (same scan order => the same operator) and minimality
                 m_n = out[look[(job['id'], k, 'naive')]]
@@ -283,24 +523,36 @@ def run(ctx):
                     wrec = int(np.count_nonzero(rec[:n] | rec[n:]))
                     if tables[cs].get(key) != wrec:
                         ctx.violation('naive-not-minimum', 'naive recovery has weight %d but an operator of weight %r has the '
-                                      'same syndrome (exhaustive search)' % (wrec, tables[cs].get(key)), rep)
+                                      'same syndrome (exhaustive search)' % (wrec, tables[cs].get(key)), rep.plain())
                 if not zero_syn:
-                    ctx.violation('naive-syndrome', 'naive recovery does not reproduce the syndrome', rep)
-                if kind == 'naive/within-t' and not corrected:
+                    ctx.violation('naive-syndrome', 'naive recovery does not reproduce the syndrome', rep.plain())
+                if (kind == 'naive/within-t' or hist) and within and not corrected:
                     if tw <= t:
-                        ctx.violation('naive-not-corrected', 'error of total weight %d <= t=%d not corrected by the naive '
-                                      'decoder (recovery xor error is not in the stabilizer span)' % (tw, t), rep)
-                    else:
+                        ctx.violation('naive-not-corrected' + ('-reused-decoder' if hist else ''),
+                                      'error of total weight %d <= t=%d not corrected by the naive '
+                                      'decoder (recovery xor error is not in the stabilizer span)' % (tw, t), rep.plain())
+                    elif not hist:
                         ctx.violation(KNOWN_NAIVE, 'naive decoder does not correct %s (X-part %d, Z-part %d, total weight %d '
-                                      '> t=%d)' % (rep['error'], xw, zw, tw, t), rep)
+                                      '> t=%d)' % (rep['error'], xw, zw, tw, t), rep.plain())
             else:
+                if not zero_syn:
+                    ctx.violation('mwpm-syndrome', '%s on %s: the recovery does not reproduce the syndrome' % (ds[0], cname), rep.plain())
                 if within and not corrected:
-                    ctx.violation('mwpm-not-corrected', '%s on %s: error with X-part %d and Z-part %d (t=%d) is not corrected: '
+                    ctx.violation('mwpm-not-corrected' + ('-reused-decoder' if hist else ''),
+                                  '%s on %s%s: error with X-part %d and Z-part %d (t=%d) is not corrected: '
                                   'recovery xor error is not a product of stabilizers (in_span = None; independent check %s)'
-                                  % (ds[0], cname, xw, zw, t, indep), rep)
-                if len(kern) < 30 and n <= 25 and tw >= 2 and corrected and (job['id'] + k) % 11 == 0:
+                                  % (ds[0], cname, (' as item %d of the %s history of one decoder object' % (hist[2][k], hist[1]))
+                                     if hist else '', xw, zw, t, indep), rep)
+                if len(kern) < 30 and n <= 25 and tw >= 2 and corrected and not hist and (job['id'] + k) % 11 == 0:
                     kern.append((cs, bitstr(v), m_span))
+    mark('evaluate')
+    ctx.extra['phase_seconds'] = phase
     ctx.extra['decodes'] = sum(len(j['errors']) for j in jobs)
+    ctx.extra['graphs_compared'] = ngraph
+    ctx.extra['histories'] = ['%s/%s: %d decodes' % (ds[0], name, len(items)) for ds, name, items in histories]
+    ctx.extra['chain_sizes'] = {fam: ['%dx%d' % z for z, _ in v] for fam, v in csz.items()}
+    if graph_ok and not ngraph:
+        ctx.obligation('matching graphs were recorded and compared', False, 'no graph compared')
     ctx.notes.append('in_span is sound for positive answers (checked coefficients); every negative answer is certified by '
                      'not_in_span_cert (a logical/stabilizer anticommuting with recovery xor error, c14_not_in_span_cert_sound) '
                      'and cross-checked by an independent elimination')
@@ -324,6 +576,87 @@ def run(ctx):
     ctx.kernel_cases('sample', text)
     ctx.extra['kernel_cases'] = len(items)
 
+    # in-kernel shard: the recorded graphs are the model graphs (same edges up to orientation, same weights)
+    if graph_ok and gkern:
+        gi = []
+        for cs, syn, graphs in gkern:
+            sb = coq_bits([c == '1' for c in syn])
+            for li, g in enumerate(graphs):
+                ents = [] if g == '-' else g.split(';')
+                if cs[0] == 'planar':
+                    fmt = lambda a: '(%s, %s)' % tuple('(%s)' % x for x in a.split(':'))
+                    mg = '%s %d %d %s' % ('primal_graph' if li == 0 else 'dual_graph', cs[1][0], cs[1][1], sb)
+                    fn = 'same2'
+                else:
+                    fmt = lambda a: '(%s, %s, %s)' % tuple('(%s)' % x for x in a.split(':'))
+                    mg = 'toric_graph %d %d %d %s' % (cs[1][0], cs[1][1], li, sb)
+                    fn = 'same3'
+                il = coq_list(['(%s, %s, (%s))' % (fmt(en.split('=')[0].split('>')[0]), fmt(en.split('=')[0].split('>')[1]),
+                                                   en.split('=')[1]) for en in ents])
+                gi.append('%s (%s) %s' % (fn, mg, il))
+        text = ('From Coq Require Import List Bool ZArith NArith.\nFrom QV Require Import Core.Bits Core.Pauli Core.Symp Core.Code '
+                'Lattice.Planar Lattice.Toric Decoders.PlanarMwpm Decoders.ToricMwpm Decoders.MwpmGraph.\nImport ListNotations.\n'
+                'Open Scope Z_scope.\n'
+                'Definition same {A} (eqb : A -> A -> bool) (g : list (A * A * option Z)) (impl : list (A * A * Z)) : bool :=\n'
+                '  Nat.eqb (length g) (length impl) && forallb (fun e => let \'(a, b, w) := e in existsb (fun m => match m with\n'
+                '    | (x, y, Some u) => ((eqb x a && eqb y b) || (eqb x b && eqb y a)) && (u =? w) | _ => false end) g) impl.\n'
+                'Definition same2 := same zeqb2.\nDefinition same3 := same zeqb3.\n'
+                'Definition checks : list bool :=\n [' + ';\n  '.join(gi) + '].\n'
+                'Example corr : forallb (fun b => b) checks = true.\nProof. vm_compute. reflexivity. Qed.\n')
+        ctx.kernel_cases('graph', text)
+        ctx.extra['graph_kernel_cases'] = len(gi)
+
+
+def _fails(ds, items):
+    """does the LAST decode of this history (one decoder object) violate the property? decided on the implementation's
+    output by the independent elimination"""
+    res = cx.run_job({'id': 0, 'decoder': ds, 'items': items, 'scribble': True, 'no_alarm': True})['results']
+    if len(res) != len(items):
+        return True
+    r, (cs, es) = res[-1], items[-1]
+    code = zoo._code(cs)
+    if r.get('outcome') != 'ok' or not r.get('recovery') or len(r['recovery']) != len(es):
+        return True
+    v = [int(a != b) for a, b in zip(r['recovery'], es)]
+    return not PySpan(code.stabilizers).contains(v)
+
+
+def shrink_history(ds, items, pos):
+    """a short history that still fails at its last item: first the failing decode alone (fresh object), then with the
+    earlier decodes on ONE other code only, then halving; [] = fails on a fresh object; None = only the full prefix"""
+    last = items[pos]
+    if _fails(ds, [last]):
+        return []
+    prefix = items[:pos]
+    order = []
+    for cs, _ in reversed(prefix):
+        if cs not in order:
+            order.append(cs)
+    cand = None
+    for cs in order[:12]:
+        sub = [it for it in prefix if it[0] == cs]
+        if _fails(ds, sub + [last]):
+            cand = sub
+            break
+    if cand is None:
+        if len(prefix) <= 4000 and _fails(ds, prefix + [last]):
+            cand = prefix
+        else:
+            return None
+    for _ in range(40):
+        if len(cand) <= 1:
+            break
+        h = len(cand) // 2
+        if _fails(ds, cand[:h] + [last]):
+            cand = cand[:h]
+        elif _fails(ds, cand[h:] + [last]):
+            cand = cand[h:]
+        else:
+            break
+    if len(cand) > 300:
+        return None
+    return [[[cs[0], list(cs[1])], zoo.bsf_to_letters(np.array([int(c) for c in es]))] for cs, es in cand]
+
 
 def replay(path):
     d = json.load(open(path))
@@ -335,16 +668,25 @@ def replay(path):
     ds = (r['decoder'][0], tuple(r['decoder'][1]))
     e = zoo.letters_to_bsf(r['error'])
     zoo._init_worker()
-    res = zoo.run_decode_job({'id': 0, 'code': cs, 'decoder': ds, 'errors': [bitstr(e)],
-                              'contexts': [(('DepolarizingErrorModel', ()), 0.1)]})['results'][0]
+    items = [(cs, bitstr(e))]
+    h = r.get('history')
+    if r.get('prior') is not None:
+        items = [((c[0], tuple(c[1])), bitstr(zoo.letters_to_bsf(le))) for c, le in r['prior']] + items
+        print('history: %d earlier decodes by the same decoder object, then the failing one' % (len(items) - 1))
+    elif h:
+        hs = build_histories(h['hseed'], h['tier'] == 'quick')
+        items = hs[h['number']][2][:h['index'] + 1]
+        print('history %s regenerated: %d decodes by one decoder object' % (h['order'], len(items)))
+    res = cx.run_job({'id': 0, 'decoder': ds, 'items': items, 'scribble': bool(h)})['results'][-1]
     print('outcome now:', res)
     code = zoo.make_code(cs)
     n = code.n_k_d[0]
     bad = 1
     if res.get('recovery') and len(res['recovery']) == 2 * n:
         v = ''.join('1' if a != b else '0' for a, b in zip(res['recovery'], bitstr(e)))
-        ctx = Ctx('C14', 'quick', 0)
-        o = ctx.model('dec', ['mat c ' + rowsstr(code.stabilizers), 'span c %d %s' % (2 * n, v)])
+        exe = os.path.join(BUILD, 'qmodel_dec')
+        p = subprocess.run([exe], input='mat c %s\nspan c %d %s\n' % (rowsstr(code.stabilizers), 2 * n, v), capture_output=True, text=True)
+        o = p.stdout.split('\n')
         print('in_span(recovery xor error) =', o[1])
         bad = 1 if o[1] == '_' else 0
     print('REPRODUCED' if bad else 'not reproduced')
